@@ -333,6 +333,7 @@ Section Proofs.
   Hypothesis HR : 0 < fl_range fl.
   Hypothesis HD : 0 <= fl_depth fl.
   Hypothesis Hfs : 0 <= fl_first_start fl.
+  Hypothesis Hcl : fl_unclamped fl = false.
   Notation fs := (fl_first_start fl).
   Notation cinv := (inv titem (@t_admissible LogT) fl).
   Notation tview_ok := (view_ok (@t_key LogT) (@t_admissible LogT) fl).
@@ -344,15 +345,15 @@ Section Proofs.
     cinv (ts_core st) w /\ finv w (tpos st) (st_rows (ts_core st)) (ts_decrypted st) (ts_fired st).
 
   Lemma core_commit_rows (v : view) (core : state titem) s b hb :
-    tview_ok v -> quiet_before (@t_admissible LogT) v fs -> 0 <= s -> s <= b -> b <= head_number v ->
+    tview_ok v -> fs <= s -> 0 <= s -> s <= b -> b <= head_number v ->
     st_rows core = rows_of v fs (s - 1) ->
     st_rows (core_commit (node_of_view v) core s b hb) = st_rows core ++ rows_of v s b /\
     st_rows core ++ rows_of v s b = rows_of v fs b /\
     NoDup (reg_keys (rows_of v fs b)).
   Proof.
-    intros (Hne & Hhn & Hku & Hbound) Hq Hs Hsb Hb Hrows.
+    intros (Hne & Hhn & Hku & Hbound) Hfss Hs Hsb Hb Hrows.
     assert (Hext : st_rows core ++ rows_of v s b = rows_of v fs b).
-    { rewrite Hrows. apply rows_of_extend; [exact Hq|exact Hs|lia]. }
+    { rewrite Hrows. rewrite <- (rows_of_app titem (@t_admissible LogT) v fs (s - 1) b) by lia. do 2 f_equal. lia. }
     assert (Hnd : NoDup (reg_keys (rows_of v fs b))).
     { unfold reg_keys. apply (keys_unique_stretch titem ukey (@t_key LogT) (@t_admissible LogT) v fs b Hku Hfs Hb). }
     split; [|split; assumption].
@@ -371,9 +372,9 @@ Section Proofs.
   Proof. destruct (pop_n n fsx) as [bad rest]. eauto. Qed.
 
   Lemma trange_loop_finv (v : view) :
-    tview_ok v -> quiet_before (@t_admissible LogT) v fs ->
+    tview_ok v ->
     forall rs s (st : tstate) orders rpc db,
-      ranges_cover s (head_number v) (fl_range fl) rs -> 0 <= s ->
+      ranges_cover s (head_number v) (fl_range fl) rs -> 0 <= s -> fs <= s ->
       (forall a b, In (a, b) rs -> range_clear v a b) ->
       st_rows (ts_core st) = rows_of v fs (s - 1) ->
       finv v (s - 1) (st_rows (ts_core st)) (ts_decrypted st) (ts_fired st) ->
@@ -381,8 +382,8 @@ Section Proofs.
       (wrote = false /\ st2 = st) \/
       (wrote = true /\ exists k, s <= k <= head_number v /\ synced_at v st2 k).
   Proof.
-    intros Hvo Hq.
-    induction rs as [|[a b] rest IH]; intros s st orders rpc db Hcov Hs Hclear Hrows Hfinv; [simpl; left; auto|].
+    intros Hvo.
+    induction rs as [|[a b] rest IH]; intros s st orders rpc db Hcov Hs Hfss Hclear Hrows Hfinv; [simpl; left; auto|].
     simpl in Hcov. destruct Hcov as (-> & Hsb & Hbe & Hlen & Hlast & Hfull & Hrest).
     cbn [TriggerSync.trange_loop].
     destruct (pop rpc) as [fh rpc1]. destruct (is_fail fh); [left; auto|].
@@ -393,7 +394,7 @@ Section Proofs.
     destruct (is_fail fr || is_fail fa || ft); [left; auto|].
     destruct (popb orders) as [o orders1].
     destruct st as [core dec fi]. cbn [ts_core ts_decrypted ts_fired] in *.
-    destruct (core_commit_rows v core s b hb Hvo Hq Hs Hsb Hbe Hrows) as (Hcore & Hext & Hnd).
+    destruct (core_commit_rows v core s b hb Hvo Hfss Hs Hsb Hbe Hrows) as (Hcore & Hext & Hnd).
     destruct (commit_trange_finv o v core dec fi fs s b hb Hs Hsb Hbe (Hclear s b (or_introl eq_refl)) Hrows Hcore
                                  ltac:(rewrite Hext; exact Hnd) Hfinv) as (fi' & Hcommit & Hfinv').
     rewrite Hcommit.
@@ -405,7 +406,7 @@ Section Proofs.
     - assert (Hcov' : ranges_cover (b + 1) (head_number v) (fl_range fl) rest).
       { destruct rest as [|p rest']; [simpl; specialize (Hlast eq_refl); lia|exact Hrest]. }
       destruct Hsynced as (h' & Hh' & Hst' & Hrows' & Hf').
-      specialize (IH (b + 1) st' orders1 rpc3 db2 Hcov' ltac:(lia) (fun x y Hxy => Hclear x y (or_intror Hxy))).
+      specialize (IH (b + 1) st' orders1 rpc3 db2 Hcov' ltac:(lia) ltac:(lia) (fun x y Hxy => Hclear x y (or_intror Hxy))).
       replace (b + 1 - 1) with b in IH by lia. specialize (IH Hrows' Hf').
       destruct (trange_loop (node_of_view v) st' rest orders1 rpc3 db2) as [[st2 r] wrote2].
       right. split; [reflexivity|].
@@ -426,19 +427,37 @@ Section Proofs.
     - unfold tpos. rewrite Hst. exact Hf.
   Qed.
 
+  Lemma next_start_clamped (c : state titem) :
+    next_start fl c = match st_status c with None => fs | Some (k, _) => Z.max (k + 1) fs end.
+  Proof. unfold next_start, start_after. rewrite Hcl. reflexivity. Qed.
+
+  Lemma clamp_rows (v : view) k rows : rows = rows_of v fs k -> rows = rows_of v fs (Z.max (k + 1) fs - 1).
+  Proof.
+    intros ->. destruct (Z_le_gt_dec fs (k + 1)); [f_equal; lia|].
+    rewrite (rows_of_empty titem (@t_admissible LogT) v fs k) by lia. symmetry. apply rows_of_empty. lia.
+  Qed.
+
+  Lemma clamp_finv (v : view) k rows dec fi :
+    rows = rows_of v fs k -> finv v k rows dec fi -> finv v (Z.max (k + 1) fs - 1) rows dec fi.
+  Proof.
+    intros Hr Hf. destruct (Z_le_gt_dec fs (k + 1)); [replace (Z.max (k + 1) fs - 1) with k by lia; exact Hf|].
+    rewrite Hr in *. rewrite (rows_of_empty titem (@t_admissible LogT) v fs k) in * by lia.
+    eapply finv_nil_rows; eauto.
+  Qed.
+
   Lemma tsync_tinv (v w : view) (st : tstate) orders rpc db :
-    tview_ok v -> quiet_before (@t_admissible LogT) v fs -> d10_free fl v st ->
+    tview_ok v -> d10_free fl v st ->
     tinv st w ->
     (st_status (ts_core st) <> None -> tview_ok w /\ hash_determines w v) ->
     head_ok fl (mkg (ts_core st) w) v ->
     let '(st', r, wrote) := tsync fl (node_of_view v) st orders rpc db in
     (wrote = false /\ st' = st) \/ (wrote = true /\ tinv st' v).
   Proof.
-    intros Hvo Hq Hd10 [Hcinv Hfinv] Hw Hok.
+    intros Hvo Hd10 [Hcinv Hfinv] Hw Hok.
     assert (Hbound : head_number v + fl_range fl < two64) by (destruct Hvo as (_ & _ & _ & Hb); unfold two64; lia).
     (* the common second phase *)
     assert (Hphase2 : forall (st1 : tstate) orders1 rpc1 db1 wrote1 start,
-      start = next_start fl (ts_core st1) -> 0 <= start ->
+      start = next_start fl (ts_core st1) -> 0 <= start -> fs <= start ->
       (forall rs, get_sync_ranges start (head_number v) (fl_range fl) = RangesDone rs ->
                   forall a b, In (a, b) rs -> range_clear v a b) ->
       (start <= head_number v -> st_rows (ts_core st1) = rows_of v fs (start - 1) /\
@@ -451,13 +470,13 @@ Section Proofs.
               | RangesDone rs => let '(st2, r, wrote2) := trange_loop (node_of_view v) st1 rs orders1 rpc1 db1 in (st2, r, wrote1 || wrote2)
               end) in
       (wrote = false /\ st' = st) \/ (wrote = true /\ tinv st' v)).
-    { intros st1 orders1 rpc1 db1 wrote1 start Hstart Hs0 Hclr Hready Hprev.
+    { intros st1 orders1 rpc1 db1 wrote1 start Hstart Hs0 Hfs0 Hclr Hready Hprev.
       change (n_number (node_of_view v)) with (head_number v).
       destruct (start >? head_number v) eqn:Hgt; [exact Hprev|].
       assert (Hle : start <= head_number v) by (destruct (Z.gtb_spec start (head_number v)); [discriminate|lia]).
       destruct (sync_ranges_cover start (head_number v) (fl_range fl) Hs0 HR Hbound) as (rs & Hrs & Hcov).
       rewrite Hrs. destruct (Hready Hle) as [Hrows1 Hfinv1].
-      assert (H := trange_loop_finv v Hvo Hq rs start st1 orders1 rpc1 db1 Hcov Hs0 (Hclr rs Hrs) Hrows1 Hfinv1).
+      assert (H := trange_loop_finv v Hvo rs start st1 orders1 rpc1 db1 Hcov Hs0 Hfs0 (Hclr rs Hrs) Hrows1 Hfinv1).
       destruct (trange_loop (node_of_view v) st1 rs orders1 rpc1 db1) as [[st2 r] wrote2].
       destruct H as [[-> ->]|[-> (k & Hk & Hsy)]].
       - rewrite orb_false_r. exact Hprev.
@@ -477,12 +496,15 @@ Section Proofs.
       + apply Z.leb_le in Hn.
         destruct (pop db1) as [f4 db2]. destruct (is_fail f4); [left; auto|].
         apply (Hphase2 st orders rpc db2 false (next_start fl (ts_core st)) eq_refl).
-        * unfold next_start. rewrite Hst. lia.
+        * rewrite next_start_clamped, Hst. lia.
+        * rewrite next_start_clamped, Hst. lia.
         * intros rs Hrs a b Hab. apply Hd10. rewrite Hrs. exact Hab.
-        * unfold next_start. rewrite Hst. intros Hle. replace (k + 1 - 1) with k by lia.
-          assert (Hag := Hno Hn Hle). split.
-          -- rewrite Hrows. apply (rows_of_agree titem (@t_admissible LogT) w v k); [exact Hag|exact Hfs|lia].
-          -- apply (finv_agree v w); assumption.
+        * rewrite next_start_clamped, Hst. intros Hle.
+          assert (Hag := Hno Hn ltac:(lia)).
+          assert (Hrv : st_rows (ts_core st) = rows_of v fs k).
+          { rewrite Hrows. apply (rows_of_agree titem (@t_admissible LogT) w v k); [exact Hag|exact Hfs|lia]. }
+          split; [apply clamp_rows; exact Hrv|].
+          apply clamp_finv; [exact Hrv|]. apply (finv_agree v w); assumption.
         * left. auto.
       + apply Z.leb_gt in Hn. destruct (Hyes Hn) as (Hkn & Hhead & Hag).
         set (n := num_reorged fl k h (node_of_view v)) in *.
@@ -516,11 +538,13 @@ Section Proofs.
           (wrote = false /\ st' = mktstate core dec fi) \/ (wrote = true /\ tinv st' v)).
         { intros dbx. destruct (pop dbx) as [f4 dbx1]. destruct (is_fail f4); [right; auto|].
           apply (Hphase2 st1 orders1 rpc dbx1 true (next_start fl (ts_core st1)) eq_refl).
-          * unfold next_start. rewrite Hst1. lia.
-          * intros rs Hrs a b Hab. apply Hd10. unfold next_start in Hrs. rewrite Hst1 in Hrs. rewrite Hrs. exact Hab.
-          * unfold next_start. rewrite Hst1. intros _. replace (k - n + 1 - 1) with (k - n) by lia.
+          * rewrite next_start_clamped, Hst1. lia.
+          * rewrite next_start_clamped, Hst1. lia.
+          * intros rs Hrs a b Hab. apply Hd10. rewrite <- Hcore1. rewrite Hrs. exact Hab.
+          * rewrite next_start_clamped, Hst1. intros _.
             destruct Htinv1 as [_ Hf]. unfold tpos in Hf. rewrite Hst1 in Hf.
-            split; [rewrite Hcore1, Hrows1; exact Hrowsv|exact Hf].
+            assert (Hrv : st_rows (ts_core st1) = rows_of v fs (k - n)) by (rewrite Hcore1, Hrows1; exact Hrowsv).
+            split; [apply clamp_rows; exact Hrv|apply clamp_finv; assumption].
           * right. auto. }
         destruct f3.
         * exact (Hcontinue db3).
@@ -531,9 +555,10 @@ Section Proofs.
       unfold tpos in Hfinv. rewrite Hst in Hfinv.
       destruct (pop db1) as [f4 db2]. destruct (is_fail f4); [left; auto|].
       apply (Hphase2 st orders rpc db2 false (next_start fl (ts_core st)) eq_refl).
-      + unfold next_start. rewrite Hst. exact Hfs.
+      + rewrite next_start_clamped, Hst. exact Hfs.
+      + rewrite next_start_clamped, Hst. lia.
       + intros rs Hrs a b Hab. apply Hd10. rewrite Hrs. exact Hab.
-      + unfold next_start. rewrite Hst. intros _. rewrite Hc in *. split.
+      + rewrite next_start_clamped, Hst. intros _. rewrite Hc in *. split.
         * symmetry. apply rows_of_empty. lia.
         * eapply finv_nil_rows; eauto.
       + left. auto.
@@ -563,10 +588,10 @@ Section Proofs.
   Proof.
     intros [HU Hdet] Hin [Hinv Hghost] Hok. destruct g as [st w]. cbn [tg_st tg_view] in *.
     destruct op as [v orders rpc db|k]; cbn [TriggerSync.tgstep tg_st tg_view].
-    - specialize (Hin v orders rpc db eq_refl). destruct (HU v Hin) as (Hvo & Hq).
+    - specialize (Hin v orders rpc db eq_refl). assert (Hvo := HU v Hin).
       destruct Hok as [Hhead Hd10]. cbn [tg_st tg_view] in *.
-      assert (H := tsync_tinv v w st orders rpc db Hvo Hq Hd10 Hinv
-                     (fun Hs => conj (proj1 (HU w (Hghost Hs))) (Hdet w v (Hghost Hs) Hin)) Hhead).
+      assert (H := tsync_tinv v w st orders rpc db Hvo Hd10 Hinv
+                     (fun Hs => conj (HU w (Hghost Hs)) (Hdet w v (Hghost Hs) Hin)) Hhead).
       destruct (tsync fl (node_of_view v) st orders rpc db) as [[st' r] wrote].
       destruct H as [[-> ->]|[-> Hinv']]; cbn [tg_st tg_view].
       + split; assumption.
@@ -625,7 +650,7 @@ Section Proofs.
     destruct Hcinv as (Hk & Hrows & Hhash).
     assert (Hv : In v (top_views history)).
     { apply (top_views_In history v orders rpc db). unfold history. apply in_or_app. right. left. reflexivity. }
-    destruct HU as [HU Hdet]. destruct (HU v Hv) as ((_ & Hhn & _) & _).
+    destruct HU as [HU Hdet]. destruct (HU v Hv) as (_ & Hhn & _).
     assert (Hne : h <> []) by (rewrite <- Hh; apply Hhn; eapply block_at_In; eauto).
     destruct Hhash as [Hhash|Hhash]; [contradiction|].
     set (w := tg_view (tgrun fl history)) in *.
@@ -662,12 +687,14 @@ Section Proofs.
   Proof.
     intros (Hne & Hhn & Hku & Hb) [Hcinv _] Hnem s e Hin.
     unfold TriggerSync.sync_ranges_of in Hin.
-    set (start := match reorg_target fl (node_of_view v) st with Some to => to + 1 | None => next_start fl (ts_core st) end) in *.
+    set (start := match reorg_target fl (node_of_view v) st with
+                  | Some to => next_start fl (rollback_to (ts_core st) to) | None => next_start fl (ts_core st) end) in *.
     assert (Hs0 : 0 <= start).
-    { unfold start, reorg_target, next_start. unfold inv in Hcinv.
-      destruct (st_status (ts_core st)) as [[k h]|]; [|exact Hfs].
-      destruct Hcinv as (Hk & _). destruct (num_reorged fl k h (node_of_view v) <=? 0); [lia|].
-      assert (H := num_reorged_le titem fl k h (node_of_view v) ltac:(lia)). lia. }
+    { unfold start, reorg_target. unfold inv in Hcinv.
+      destruct (st_status (ts_core st)) as [[k h]|] eqn:Hst; [|rewrite next_start_clamped, Hst; exact Hfs].
+      destruct Hcinv as (Hk & _). destruct (num_reorged fl k h (node_of_view v) <=? 0).
+      - rewrite next_start_clamped, Hst. lia.
+      - rewrite next_start_clamped. cbn [rollback_to st_status]. lia. }
     destruct (sync_ranges_cover start (head_number v) (fl_range fl) Hs0 HR ltac:(unfold two64; lia)) as (rs & Hrs & Hcov).
     rewrite Hrs in Hin. destruct (cover_In _ _ _ _ _ _ Hcov Hin) as (H1 & H2 & H3 & H4).
     intros p Hp. eapply first_fire_new_none; eauto; lia.
@@ -680,7 +707,7 @@ Section Proofs.
     assert (Hd : match op with TSync v _ _ _ => d10_free fl v (tg_st g) | TDecrypt _ => True end).
     { destruct op as [v o r d|k]; [|exact I].
       assert (Hv : In v U) by (apply (Hin v o r d); left; reflexivity).
-      destruct HU as [HU _]. destruct (HU v Hv) as [Hvo _]. destruct Hg as [Hti _].
+      destruct HU as [HU _]. assert (Hvo := HU v Hv). destruct Hg as [Hti _].
       eapply no_early_d10_free; eauto. }
     cbn [TriggerSync.td10_free]. split; [exact Hd|].
     cbn [TriggerSync.theads_ok] in Hok. destruct Hok as [Hok1 Hok2].
@@ -709,17 +736,17 @@ Section Proofs.
   Proof. reflexivity. Qed.
 
   Lemma trange_loop_cinv (v : view) :
-    tview_ok v -> quiet_before (@t_admissible LogT) v fs ->
+    tview_ok v ->
     forall rs s (st : tstate) orders rpc db,
-      ranges_cover s (head_number v) (fl_range fl) rs -> 0 <= s ->
+      ranges_cover s (head_number v) (fl_range fl) rs -> 0 <= s -> fs <= s ->
       st_rows (ts_core st) = rows_of v fs (s - 1) ->
       let '(st2, r, wrote) := trange_loop (node_of_view v) st rs orders rpc db in
       (wrote = false /\ st2 = st) \/
       (wrote = true /\ exists k h, s <= k <= head_number v /\ hash_at v k = Some h /\
                                   ts_core st2 = mkstate (Some (k, h)) (rows_of v fs k)).
   Proof.
-    intros Hvo Hq.
-    induction rs as [|[a b] rest IH]; intros s st orders rpc db Hcov Hs Hrows; [simpl; left; auto|].
+    intros Hvo.
+    induction rs as [|[a b] rest IH]; intros s st orders rpc db Hcov Hs Hfss Hrows; [simpl; left; auto|].
     simpl in Hcov. destruct Hcov as (-> & Hsb & Hbe & Hlen & Hlast & Hfull & Hrest).
     cbn [TriggerSync.trange_loop].
     destruct (pop rpc) as [fh rpc1]. destruct (is_fail fh); [left; auto|].
@@ -732,12 +759,12 @@ Section Proofs.
     destruct (commit_trange o (node_of_view v) st s b hb) as [st'|] eqn:Ec; [|left; auto].
     assert (Hcore' : ts_core st' = mkstate (Some (b, hb)) (rows_of v fs b)).
     { rewrite (commit_trange_core _ _ _ _ _ _ _ Ec).
-      destruct (core_commit_rows v (ts_core st) s b hb Hvo Hq Hs Hsb Hbe Hrows) as (Hc & Hext & _).
+      destruct (core_commit_rows v (ts_core st) s b hb Hvo Hfss Hs Hsb Hbe Hrows) as (Hc & Hext & _).
       unfold Syncer.commit_range in *. cbn [st_rows] in Hc. f_equal. rewrite Hc. exact Hext. }
     destruct (pop db1) as [fc db2]. destruct fc.
     - assert (Hcov' : ranges_cover (b + 1) (head_number v) (fl_range fl) rest).
       { destruct rest as [|p rest']; [simpl; specialize (Hlast eq_refl); lia|exact Hrest]. }
-      specialize (IH (b + 1) st' orders1 rpc3 db2 Hcov' ltac:(lia)).
+      specialize (IH (b + 1) st' orders1 rpc3 db2 Hcov' ltac:(lia) ltac:(lia)).
       replace (b + 1 - 1) with b in IH by lia. rewrite Hcore' in IH. specialize (IH eq_refl).
       destruct (trange_loop (node_of_view v) st' rest orders1 rpc3 db2) as [[st2 r] wrote2].
       right. split; [reflexivity|].
@@ -749,17 +776,17 @@ Section Proofs.
   Qed.
 
   Lemma tsync_cinv (v w : view) (st : tstate) orders rpc db :
-    tview_ok v -> quiet_before (@t_admissible LogT) v fs ->
+    tview_ok v ->
     cinv (ts_core st) w ->
     (st_status (ts_core st) <> None -> hash_determines w v) ->
     head_ok fl (mkg (ts_core st) w) v ->
     let '(st', r, wrote) := tsync fl (node_of_view v) st orders rpc db in
     (wrote = false /\ st' = st) \/ (wrote = true /\ cinv (ts_core st') v).
   Proof.
-    intros Hvo Hq Hcinv Hw Hok.
+    intros Hvo Hcinv Hw Hok.
     assert (Hbound : head_number v + fl_range fl < two64) by (destruct Hvo as (_ & _ & _ & Hb); unfold two64; lia).
     assert (Hphase2 : forall (st1 : tstate) orders1 rpc1 db1 wrote1 start,
-      start = next_start fl (ts_core st1) -> 0 <= start ->
+      start = next_start fl (ts_core st1) -> 0 <= start -> fs <= start ->
       (start <= head_number v -> st_rows (ts_core st1) = rows_of v fs (start - 1)) ->
       ((wrote1 = false /\ st1 = st) \/ (wrote1 = true /\ cinv (ts_core st1) v)) ->
       let '(st', r, wrote) :=
@@ -771,14 +798,14 @@ Section Proofs.
               | RangesDone rs => let '(st2, r, wrote2) := trange_loop (node_of_view v) st1 rs orders1 rpc1 db1 in (st2, r, wrote1 || wrote2)
               end) in
       (wrote = false /\ st' = st) \/ (wrote = true /\ cinv (ts_core st') v)).
-    { intros st1 orders1 rpc1 db1 wrote1 start Hstart Hs0 Hready Hprev.
+    { intros st1 orders1 rpc1 db1 wrote1 start Hstart Hs0 Hfs0 Hready Hprev.
       destruct (pop db1) as [f4 db2]. destruct (is_fail f4); [exact Hprev|].
       change (n_number (node_of_view v)) with (head_number v).
       destruct (start >? head_number v) eqn:Hgt; [exact Hprev|].
       assert (Hle : start <= head_number v) by (destruct (Z.gtb_spec start (head_number v)); [discriminate|lia]).
       destruct (sync_ranges_cover start (head_number v) (fl_range fl) Hs0 HR Hbound) as (rs & Hrs & Hcov).
       rewrite Hrs.
-      assert (H := trange_loop_cinv v Hvo Hq rs start st1 orders1 rpc1 db2 Hcov Hs0 (Hready Hle)).
+      assert (H := trange_loop_cinv v Hvo rs start st1 orders1 rpc1 db2 Hcov Hs0 Hfs0 (Hready Hle)).
       destruct (trange_loop (node_of_view v) st1 rs orders1 rpc1 db2) as [[st2 r] wrote2].
       destruct H as [[-> ->]|[-> (k & h & Hk & Hh & Hc2)]].
       - rewrite orb_false_r. exact Hprev.
@@ -795,9 +822,10 @@ Section Proofs.
       destruct (num_reorged fl k h (node_of_view v) <=? 0) eqn:Hn.
       + apply Z.leb_le in Hn.
         apply (Hphase2 st orders rpc db1 false (next_start fl (ts_core st)) eq_refl).
-        * unfold next_start. rewrite Hst. lia.
-        * unfold next_start. rewrite Hst. intros Hle. replace (k + 1 - 1) with k by lia.
-          rewrite Hrows. apply (rows_of_agree titem (@t_admissible LogT) w v k); [exact (Hno Hn Hle)|exact Hfs|lia].
+        * rewrite next_start_clamped, Hst. lia.
+        * rewrite next_start_clamped, Hst. lia.
+        * rewrite next_start_clamped, Hst. intros Hle. apply clamp_rows.
+          rewrite Hrows. apply (rows_of_agree titem (@t_admissible LogT) w v k); [exact (Hno Hn ltac:(lia))|exact Hfs|lia].
         * left. auto.
       + apply Z.leb_gt in Hn. destruct (Hyes Hn) as (Hkn & Hhead & Hag).
         set (n := num_reorged fl k h (node_of_view v)) in *.
@@ -811,15 +839,17 @@ Section Proofs.
         { rewrite Hcore1. unfold inv. cbn [st_status st_rows]. split; [lia|]. split; [reflexivity|left; reflexivity]. }
         destruct f3.
         * apply (Hphase2 st1 orders1 rpc db3 true (next_start fl (ts_core st1)) eq_refl).
-          -- rewrite Hcore1. unfold next_start. cbn [st_status]. lia.
-          -- rewrite Hcore1. unfold next_start. cbn [st_status st_rows]. intros _. f_equal. lia.
+          -- rewrite next_start_clamped, Hcore1. cbn [st_status]. lia.
+          -- rewrite next_start_clamped, Hcore1. cbn [st_status]. lia.
+          -- rewrite next_start_clamped, Hcore1. cbn [st_status st_rows]. intros _. apply clamp_rows. reflexivity.
           -- right. auto.
         * left. auto.
         * right. auto.
     - assert (Hc := Hcinv). unfold inv in Hc. rewrite Hst in Hc.
       apply (Hphase2 st orders rpc db1 false (next_start fl (ts_core st)) eq_refl).
-      + unfold next_start. rewrite Hst. exact Hfs.
-      + unfold next_start. rewrite Hst. intros _. rewrite Hc. symmetry. apply rows_of_empty. lia.
+      + rewrite next_start_clamped, Hst. exact Hfs.
+      + rewrite next_start_clamped, Hst. lia.
+      + rewrite next_start_clamped, Hst. intros _. rewrite Hc. symmetry. apply rows_of_empty. lia.
       + left. auto.
   Qed.
 
@@ -836,8 +866,8 @@ Section Proofs.
     destruct Hg as [Hinv Hghost]. destruct g as [st w]. cbn [tg_st tg_view] in *.
     destruct op as [v orders rpc db|k]; cbn [TriggerSync.tgstep tg_st tg_view].
     - assert (Hv : In v U) by (apply (Hin v orders rpc db); left; reflexivity).
-      destruct (HU v Hv) as (Hvo & Hq).
-      assert (H := tsync_cinv v w st orders rpc db Hvo Hq Hinv (fun Hs => Hdet w v (Hghost Hs) Hv) Hok1).
+      assert (Hvo := HU v Hv).
+      assert (H := tsync_cinv v w st orders rpc db Hvo Hinv (fun Hs => Hdet w v (Hghost Hs) Hv) Hok1).
       destruct (tsync fl (node_of_view v) st orders rpc db) as [[st' r] wrote].
       destruct H as [[-> ->]|[-> Hinv']]; cbn [tg_st tg_view]; split; auto.
     - split; unfold tdecrypt; destruct (_ && _); auto.
@@ -859,7 +889,7 @@ Section Proofs.
     unfold inv in Hcinv. rewrite Hst in Hcinv. destruct Hcinv as (Hk & Hrows & Hhash).
     assert (Hv : In v (top_views history)).
     { apply (top_views_In history v orders rpc db). unfold history. apply in_or_app. right. left. reflexivity. }
-    destruct HU as [HU Hdet]. destruct (HU v Hv) as ((_ & Hhn & _) & _).
+    destruct HU as [HU Hdet]. destruct (HU v Hv) as (_ & Hhn & _).
     assert (Hne : h <> []) by (rewrite <- Hh; apply Hhn; eapply block_at_In; eauto).
     destruct Hhash as [Hhash|Hhash]; [contradiction|].
     set (w := tg_view (tgrun fl history)) in *.
@@ -1137,8 +1167,8 @@ Section Proofs.
 
   Theorem batching_independent_partial (fl1 fl2 : flavour)
           (ops1 ops2 : list (top LogT)) (v : view) (o1 o2 : list bool) (rpc1 db1 rpc2 db2 : list fault) :
-    0 < fl_range fl1 -> 0 <= fl_depth fl1 -> 0 <= fl_first_start fl1 ->
-    0 < fl_range fl2 -> 0 <= fl_depth fl2 -> fl_first_start fl2 = fl_first_start fl1 ->
+    0 < fl_range fl1 -> 0 <= fl_depth fl1 -> 0 <= fl_first_start fl1 -> fl_unclamped fl1 = false ->
+    0 < fl_range fl2 -> 0 <= fl_depth fl2 -> fl_first_start fl2 = fl_first_start fl1 -> fl_unclamped fl2 = false ->
     let h1 := ops1 ++ [TSync v o1 rpc1 db1] in
     let h2 := ops2 ++ [TSync v o2 rpc2 db2] in
     tuniverse_ok fl1 (top_views h1) -> theads_ok fl1 tginit h1 -> td10_free fl1 tginit h1 -> no_decrypt h1 ->
@@ -1149,10 +1179,10 @@ Section Proofs.
       block_at v k = Some b -> bk_hash b = h ->
       forall f, In f (ts_fired (tg_st (tgrun fl1 h1))) <-> In f (ts_fired (tg_st (tgrun fl2 h2))).
   Proof.
-    intros HR1 HD1 Hfs1 HR2 HD2 Hfs2 h1 h2 HU1 Hok1 Hd1 Hnd1 HU2 Hok2 Hd2 Hnd2 k h b Hst1 Hst2 Hb Hh f.
+    intros HR1 HD1 Hfs1 Hcl1 HR2 HD2 Hfs2 Hcl2 h1 h2 HU1 Hok1 Hd1 Hnd1 HU2 Hok2 Hd2 Hnd2 k h b Hst1 Hst2 Hb Hh f.
     assert (Hfs2' : 0 <= fl_first_start fl2) by lia.
-    destruct (trigger_exact fl1 HR1 HD1 Hfs1 ops1 v o1 rpc1 db1 HU1 Hok1 Hd1 k h b Hst1 Hb Hh) as (_ & _ & S1 & C1).
-    destruct (trigger_exact fl2 HR2 HD2 Hfs2' ops2 v o2 rpc2 db2 HU2 Hok2 Hd2 k h b Hst2 Hb Hh) as (_ & _ & S2 & C2).
+    destruct (trigger_exact fl1 HR1 HD1 Hfs1 Hcl1 ops1 v o1 rpc1 db1 HU1 Hok1 Hd1 k h b Hst1 Hb Hh) as (_ & _ & S1 & C1).
+    destruct (trigger_exact fl2 HR2 HD2 Hfs2' Hcl2 ops2 v o2 rpc2 db2 HU2 Hok2 Hd2 k h b Hst2 Hb Hh) as (_ & _ & S2 & C2).
     fold h1 in S1, C1. fold h2 in S2, C2.
     rewrite (decrypted_nil fl1 h1 Hnd1) in C1. rewrite (decrypted_nil fl2 h2 Hnd2) in C2.
     rewrite Hfs2 in S2, C2.
